@@ -485,10 +485,17 @@ def check_pair(ctx, problem, cfg, kind, level=None, label='random',
         # half of the pairs re-use ONE directory (same file paths, re-written
         # between the two runs, in this same process), half of those with
         # tmp_dir=None so that the files are read in place
-        share = [ctx.rng.random() < 0.5, ctx.rng.random() < 0.5]
+        share = [ctx.rng.random() < 0.5, ctx.rng.random() < 0.5,
+                 ctx.rng.randrange(1, 10 ** 6) if ctx.rng.random() < 0.5 else 0]
     detail = {'kind': kind, 'problem': problem, 'config': cfg, 'level': level,
               'share': share}
     cfg_a, cfg_b, tree_b, markers_b = pair_setup(problem, cfg, kind, level)
+    if tree_b is not None and len(share) > 2 and share[2]:
+        # "the taxonomy that never had that level" has no order of siblings:
+        # the reference of run B lists nodes and children in an arbitrary one
+        import random as _random
+        tree_b = U.shuffle_tree(_random.Random(share[2]), tree_b)
+        ctx.count('pair:reduced-tree-shuffled')
     run_tree = tree_b if tree_b is not None else U.reduced_tree(
         tree, flatten=cfg_a['flatten'])
     if kind == 'drop':
